@@ -3,25 +3,27 @@
  "property": ["C08", "C09", "C14"],
  "entry": "h_gotheaders",
  "enforce": ["gotheaders"],
- "replace": ["findeol", "callback_read_header", "callback_chunkedheader", "get_body_gotclen", "callback_read_toeof"],
+ "replace": ["callback_read_header", "callback_chunkedheader", "get_body_gotclen", "callback_read_toeof"],
  "annotate": ["http/http.c"],
- "defines": ["VERIF_HALLOC", "HTTP_N=32", "HTTP_HB=32", "HTTP_BODYMAX=8", "VERIF_STRMAX=36", "HTTP_MAYFAIL"],
- "thorough_defines": ["HTTP_N=64", "HTTP_HB=64", "VERIF_STRMAX=68"],
- "models": ["models/http_string.c", "models/http_env.c", "models/libc_mem.c"],
- "cbmc": ["--malloc-may-fail", "--malloc-fail-null", "--object-bits", "9"],
- "expect_loops": ["http_findheader", "strlen", "strcmp", "strcspn", "strspn", "strstr"],
+ "defines": ["VERIF_HALLOC", "HTTP_N=16", "HTTP_BODYMAX=8", "VERIF_STRMAX=14", "HTTP_MAYFAIL", "VERIF_NO_DIRTY"],
+ "matrix": {"HTTP_BLEN": [4, 7, 8]},
+ "models": ["models/libc_string.c", "models/http_env.c", "models/libc_mem.c"],
+ "cbmc": ["--malloc-may-fail", "--malloc-fail-null", "--unwindset", "gotheaders_wrapped_for_contract_checking.0:8,gotheaders_wrapped_for_contract_checking.1:14,gotheaders_wrapped_for_contract_checking.2:7,findeol.0:14,http_findheader.0:7"],
+ "loop_contracts": false,
+ "bounded": true, "bound": "header blocks of exactly HTTP_BLEN bytes, HTTP_BLEN in {4, 7, 8} (all contents): the agreement of the counting pass and the parsing pass is checked by unwinding, not by induction",
  "allow_undefined": ["strtod", "strtoimax", "fprintf", "abort"],
  "timeout": 1200,
- "assumptions": ["header block <= HTTP_HB bytes (object-size parameter: bounds the quantifiers and the ghost line record; the counting pass, the parsing pass and the OWS loop are closed by loop contracts, for any number of lines)",
-   "sscanf: writes up to three ints, returns -1..3; strtoumax: C11 (models/http_env.c)",
-   "findeol, callback_read_header, callback_chunkedheader, get_body_gotclen, callback_read_toeof: replaced by their contracts (enforced in their own groups); sgetline, http_findheader, imalloc and the exits docallback, fail, die, http_request_cancel are inlined (real code; 13 more replaced call sites exhaust cbmc's object numbering); sgetline's in-code assertion is proved in this context",
+ "assumptions": ["BOUNDED: header block length is one of the matrix values (a symbolic length makes cbmc's array encoding of `malloc(len); memcpy(..., len)` exceed 28 GB); window object <= HTTP_N bytes; all loops of gotheaders and of the inlined callees are unwound",
+   "an unbounded variant (loop contracts over a ghost record of the line starts, quantifiers with constant bounds) was written and abandoned: cbmc 6.11 ignores nested quantifiers, exceeds 512 objects and 16 GB under DFCC",
+   "sscanf: writes the first k of three ints, returns k in -1..3; strtoumax: C11 (models/http_env.c); string functions: models/libc_string.c",
+   "callback_read_header, callback_chunkedheader, get_body_gotclen, callback_read_toeof: replaced by their contracts (enforced in their own groups); findeol, sgetline, http_findheader, imalloc and the exits docallback, fail, die, http_request_cancel are inlined (real code; a contract replaced inside an unwound loop is instantiated once per iteration and exhausts cbmc's object numbering); sgetline's and gotheaders' in-code assertions are proved in this context",
    "malloc may fail (HTTP_MAYFAIL: die() is then allowed without an environment failure)"]
 }
 */
 /*
- * gotheaders on every header block of up to HTTP_HB bytes that ends with the window's first "\r\n\r\n": memory-safe;
+ * gotheaders on every header block of HTTP_BLEN bytes that ends with the window's first "\r\n\r\n": memory-safe;
  * sgetline's "an EOL exists" assertion and the final `bufpos + 2 == res_headlen` assertion hold (the counting pass and
- * the parsing pass agree: loop invariants over a ghost record of the lines); every callee's entry condition holds at its call site -- in particular the 1xx restart must
+ * the parsing pass agree); every callee's entry condition holds at its call site -- in particular the 1xx restart must
  * re-establish callback_read_header's entry invariant (F1 is the failure of that obligation) --; allocation failure
  * => die().
  */
@@ -30,12 +32,16 @@
 #include "http/http.c"
 #include "http_h.h"
 
+#ifndef HTTP_BLEN
+#define HTTP_BLEN 8
+#endif
+#define HTTP_HB HTTP_BLEN
 
 void
 h_gotheaders(void)
 {
 	struct http_cookie * H = h_mk_cookie();
-	size_t wlen, blen, k;
+	size_t wlen, blen, k, nlines = 0;
 	uint8_t * win;
 	struct h_obs o;
 	int rc, ishead;
@@ -46,23 +52,38 @@ h_gotheaders(void)
 	h_mk_ghost();
 	win = H->R->buf + H->R->bufpos;
 	wlen = H->R->datalen - H->R->bufpos;
-	blen = nondet_size_t();
-	__CPROVER_assume(blen >= 4 && blen <= wlen && blen <= HTTP_HB);
+	blen = HTTP_BLEN;
+	__CPROVER_assume(blen <= wlen);
 	__CPROVER_assume(win[blen - 4] == '\r' && win[blen - 3] == '\n' && win[blen - 2] == '\r' && win[blen - 1] == '\n');
 	/* it is the FIRST terminator of the window (what callback_read_header guarantees for every ghost position) */
 	for (k = 0; k < HTTP_HB; k++)
 		__CPROVER_assume(!(k + 4 < blen) || !(win[k] == '\r' && win[k + 1] == '\n' && win[k + 2] == '\r' && win[k + 3] == '\n'));
 	H->hepos = blen - 4;
+	/* the specification's line count: EOLs, scanned left to right without overlap */
+	for (k = 0; k + 1 < HTTP_BLEN; k++)
+		if (win[k] == '\r' && win[k + 1] == '\n')
+			nlines++;
+	g_http.seen1xx = 0;
+	g_http_in.check_headers = 1;
+	g_http_in.hi = nondet_size_t();
 	ishead = H->req_ishead;
 	o = h_before(H);
 
 	rc = gotheaders(H, win, blen);
 
 	H_CHECK_C08(o, rc);
+	if (H_ENDED(o) && g_http_ncb == o.ncb + 1 && !g_http_cb_null && !g_http.seen1xx) {
+		/* C09 (responses not preceded by an interim response; after a 1xx the next response is callback_read_header's business): status line via sscanf, header count = lines - 2, bodiless responses */
+		__CPROVER_assert(g_http.sscanf_k == 3 && g_http_cb_status == g_http.sscanf_c, "C09: the status is the one parsed from the status line");
+		__CPROVER_assert(g_http_cb_nheaders == nlines - 2, "C09: nheaders = number of CRLF-terminated lines - 2");
+		__CPROVER_assert(!(ishead || g_http_cb_status == 204 || g_http_cb_status == 304) ||
+		    (g_http_cb_bodylen == 0 && g_http_cb_body == NULL), "C09: HEAD / 204 / 304 responses have no body");
+		__CPROVER_assert(!(g_http_cb_status >= 100 && g_http_cb_status <= 199), "C09: interim 1xx responses are never handed to the caller");
+	}
 	VCOVER(H_ENDED(o) && g_http_ncb == o.ncb + 1 && !g_http_cb_null && ishead && g_http_cb_bodylen == 0);	/* HEAD: callback now */
 	VCOVER(H_ENDED(o) && g_http_ncb == o.ncb + 1 && !g_http_cb_null && !ishead && g_http_cb_status == 204);
 	VCOVER(H_ENDED(o) && g_http_ncb == o.ncb + 1 && g_http_cb_null);						/* malformed */
 	VCOVER(H_ENDED(o) && rc == -1 && g_http_ndie == o.ndie + 1);						/* allocation failure */
-	VCOVER(!H_ENDED(o) && blen == 4);
-	VCOVER(!H_ENDED(o) && blen == HTTP_HB && wlen == blen);
+	VCOVER(!H_ENDED(o) && wlen == blen);
+	VCOVER(!H_ENDED(o) && wlen > blen + 3);
 }
